@@ -161,6 +161,21 @@ def build(op, seed, variant=0):
                 It = cover_idx(rng, n, 60)
                 yt = rng.normal(size=len(It))
                 kw.update(lamb=None, w=rng.uniform(0.5, 2, size=len(It)))       # unregularised weighted least squares
+            if v % 16 == 13:
+                # unregularised, unweighted, training data listed in sorted order (full grid / sorted by a column): the samples
+                # of a slice are then stored consecutively
+                It = np.array(sorted(map(tuple, np.vstack([cover_idx(rng, n, 80)] * 1)), key=lambda t: t[::-1] if (v // 16) % 2 else t), dtype=int)
+                yt = rng.normal(size=len(It))
+                kw.update(lamb=None, w=None)
+            if v % 16 == 9:
+                # experimental mode-swapping option of the rank-adaptive method (documented arguments allow_swap / swap_tol)
+                n = [5, 2, 4, 3]
+                d = 4
+                It = cover_idx(rng, n, 60)
+                yt = rng.normal(size=len(It))
+                Iv = mk_idx(rng, n, 8)
+                kw = dict(nswp=2, e=None, info={}, lamb=0.01, r=3, allow_swap=True, I_vld=Iv, y_vld=rng.normal(size=len(Iv)))
+                return C(op, teneva.als, [It, yt, mk_tt(rng, n, 2)], kw, mutable={"info"})
             args = [It if v % 2 else It.tolist(), yt if v % 2 else yt.tolist(), mk_tt(rng, n, 2)]
             return C(op, teneva.als, args, kw, mutable={"info"})
         if op == "anova":
